@@ -503,13 +503,26 @@ def explore(cfg, seed, limit):
     total_paths = len(paths)
     exhaustive = True
     if limit is not None and len(paths) > limit:
-        # keep the paths that reach a state with Viol entries first (they carry the findings), sample the rest
-        flagged = [p for p in paths if any(gr.states[gr.edges[i][1]]["viol"] for i in p)]
-        rest = [p for p in paths if not any(gr.states[gr.edges[i][1]]["viol"] for i in p)]
-        rng.shuffle(flagged)
-        rng.shuffle(rest)
-        keep_flagged = flagged[:max(limit // 3, 1)]
-        paths = keep_flagged + rest[:limit - len(keep_flagged)]
+        # stratified sample: for every initial file its longest path that reads a written file back, then paths
+        # that reach a state with Viol entries (they carry the findings), then a seeded sample of the rest
+        def reads(p):
+            return sum(1 for i in p if gr.edges[i][2]["act"] == "Read")
+        order = list(range(len(paths)))
+        rng.shuffle(order)
+        best = {}
+        for j in order:
+            first = gr.edges[paths[j][0]][0]
+            key = (reads(paths[j]) > 0, len(paths[j]))
+            if first not in best or key > best[first][0]:
+                best[first] = (key, j)
+        chosen = [j for _, j in best.values()][:limit]
+        taken = set(chosen)
+        flagged = [j for j in order if j not in taken and any(gr.states[gr.edges[i][1]]["viol"] for i in paths[j])]
+        room = max(0, limit - len(chosen))
+        chosen += flagged[:room // 3]
+        taken = set(chosen)
+        chosen += [j for j in order if j not in taken][:max(0, limit - len(chosen))]
+        paths = [paths[j] for j in sorted(chosen)]
         exhaustive = False
     items = []
     for pid, path in enumerate(paths):
